@@ -255,6 +255,12 @@ def modal_args(S, *, wide=True, binary=(AND, OR, MC), paired_max=1):
             for prem in itertools.permutations(shapes, k):
                 for r in concl[: (3 if k == 2 else 1)]:
                     add(arg(r, prem))
+        # world-regenerating sentences on two branches: both must run into the world limit (and be flagged) or be saturated
+        LMb, LMc = O.Necessity(O.Possibility(B)), O.Necessity(O.Possibility(Cc))
+        trap = O.Possibility(O.Necessity(A) & ~A)
+        for p_ in (LMb | LMc, (LMb & trap) | (LMc & trap), LMb | O.Possibility(Cc), O.Possibility(B) | LMc):
+            add(arg(Dd, (p_,)))
+            add(arg(Dd, (p_, O.Possibility(A))))
     return out
 
 def fo_args(S, *, ident=True, wide=True):
